@@ -14,11 +14,12 @@ import vlib
 
 
 def pre(res):
-    from gen import gen_critical
+    from gen import gen_critical, gen_tokamak
 
     try:
         changed = gen_critical.main()
-        res.extra["generated"] = {"file": "lean/HypnoModel/Gen/Critical.lean", "changed_since_last_run": bool(changed)}
+        changed = gen_tokamak.main() or changed
+        res.extra["generated"] = {"files": ["lean/HypnoModel/Gen/Critical.lean", "lean/HypnoModel/Gen/Tokamak.lean"], "changed_since_last_run": bool(changed)}
     except Exception as e:
         res.extra["generated"] = {"error": "%s: %s" % (type(e).__name__, e)}
         res.gen_error = "%s: %s" % (type(e).__name__, e)
@@ -307,6 +308,47 @@ def tokamak_level(res, tier):
             res.traces += 1
 
 
+def legs_level(res, tier):
+    """findLegs on figure-of-eight separatrices (two equal Gaussians) with a plain and with a baffled divertor wall: with the baffle the leg
+    that leaves the X-point at smaller R reaches the wall at LARGER R than the other one, so only the strike points decide inner / outer"""
+    from hypnotoad import tokamak
+
+    nx, ny, r0 = 65, 97, 1.5
+    walls = {"plain": [(1.15, -0.5), (1.85, -0.5), (1.85, 0.45), (1.15, 0.45)],
+             "baffle-outboard": [(1.15, -0.95), (1.85, -0.95), (1.85, -0.47), (1.55, -0.47), (1.55, -0.42), (1.85, -0.42), (1.85, 0.45), (1.15, 0.45)],
+             "baffle-inboard": [(1.15, -0.95), (1.85, -0.95), (1.85, 0.45), (1.15, 0.45), (1.15, -0.42), (1.45, -0.42), (1.45, -0.47), (1.15, -0.47)]}
+    for upper in (False, True):
+        for wname, wall in walls.items():
+            sgn = -1.0 if upper else 1.0
+            r1 = np.linspace(1.1, 1.9, nx)
+            z1 = np.sort(sgn * np.linspace(-1.0, 0.5, ny))
+            R2, Z2 = np.meshgrid(r1, z1, indexing="ij")
+            zx = -0.3 * sgn
+            p2 = np.exp(-((R2 - r0) ** 2 + Z2 ** 2) / 0.09) + np.exp(-((R2 - r0) ** 2 + (Z2 - 2.0 * zx) ** 2) / 0.09)
+            w = [(a, sgn * b) for a, b in wall]
+            payload = {"family": "figure-of-eight", "upper": upper, "wall": w}
+            res.case(key=("legs", upper, wname), nontrivial=wname != "plain", sample={"op": "findLegs", "upper_null": upper, "wall": wname})
+            try:
+                with warnings.catch_warnings(), contextlib.redirect_stdout(io.StringIO()):
+                    warnings.simplefilter("ignore")
+                    eq = tokamak.TokamakEquilibrium(r1, z1, p2, np.linspace(0.0, 1.0, nx), np.linspace(0.0, 1.0, nx), wall=w, make_regions=False)
+                    if len(eq.x_points) != 1:
+                        res.extra.setdefault("legs_skipped", []).append([upper, wname, len(eq.x_points)])
+                        continue
+                    legs = eq.findLegs(eq.x_points[0])
+            except Exception as ex2:  # explicit refusal
+                res.extra.setdefault("legs_refused", []).append([upper, wname, "%s: %s" % (type(ex2).__name__, str(ex2)[:100])])
+                continue
+            ri, ro = float(legs["inner"][-1].R), float(legs["outer"][-1].R)
+            res.extra.setdefault("legs", {})["%s %s" % ("upper" if upper else "lower", wname)] = {
+                "strike_R_inner": ri, "strike_R_outer": ro, "start_R_inner": float(legs["inner"][1].R), "start_R_outer": float(legs["outer"][1].R)}
+            if not ri < ro:
+                res.violation("legs-strike-order:" + wname, "%s X-point, %s wall: the leg labelled inner strikes the wall at R=%.4f, the one labelled outer at R=%.4f"
+                              % ("upper" if upper else "lower", wname, ri, ro), payload)
+            else:
+                res.traces += 1
+
+
 def run(res, tier):
     r = vlib.rng("c19")
     res.rule = ("analytic flux functions (2-3 tilted elliptical Gaussians, either sign, elongation up to 2.2, tilt up to 0.8 rad) on grids of "
@@ -321,6 +363,7 @@ def run(res, tier):
     for k in range(40 if tier == "quick" else 600):
         check_family(res, r, k, lines, pend)
     tokamak_level(res, tier)
+    legs_level(res, tier)
     lines.append("c19n 0"); pend.append(("n", "refuse", None))
     lines.append("c19n 1"); pend.append(("n", "single", None))
     lines.append("c19n 2"); pend.append(("n", "double", None))
